@@ -190,12 +190,15 @@ func workload(c *mc.Ctx) {
 	for i := 0; i < 8; i++ {
 		P = append(P, curve.NewEdwardsPoint().Add(P[2+i%6], curve.EIGHT_TORSION[i]))
 	}
-	for i := 0; len(P) < 32; i++ {
+	for i := 0; len(P) < 32 && i < 4096; i++ { // (bounded: a decoder that rejects everything must not make the harness spin)
 		var cp curve.CompressedEdwardsY
 		copy(cp[:], mc.Bytes(c.Seed, "c06pt", i, 32))
 		if p, err := curve.NewEdwardsPoint().SetCompressedY(&cp); err == nil {
 			P = append(P, p)
 		}
+	}
+	for i := 0; len(P) < 32; i++ { // not enough decodable strings (the backends then differ in P, which the digests show)
+		P = append(P, curve.NewEdwardsPoint().Add(P[2+i%6], P[3+i%5]))
 	}
 	nP := len(P)
 	var R []*curve.RistrettoPoint
